@@ -937,6 +937,34 @@ func (t *tracer) dataCase(g *gen, id int) {
 	}
 }
 
+// A nil name among the forwarding hints is a value the Go type admits but the encoder skips: either every given entry
+// comes back from the decoder or MakeInterest refuses the configuration.
+func (t *tracer) nilHint(g *gen, nm enc.Name) {
+	sp := spec.Spec{}
+	hints := []enc.Name{g.name(), nil, g.name()}[g.r.Intn(2):]
+	given := fmt.Sprint(len(hints))
+	got := "refused"
+	func() {
+		defer func() {
+			if r := recover(); r != nil {
+				got = "panic"
+			}
+		}()
+		res, err := sp.MakeInterest(nm, &ndn.InterestConfig{ForwardingHint: hints}, nil, nil)
+		if err != nil {
+			given = "refused"
+			return
+		}
+		i, _, err := sp.ReadInterest(enc.NewBufferReader(join(res.Wire)))
+		if err != nil {
+			got = "undecodable"
+			return
+		}
+		got = fmt.Sprint(len(i.ForwardingHint()))
+	}()
+	t.line("SAME hint-entries-roundtrip %s %s", got, given)
+}
+
 func (t *tracer) intCase(g *gen, id int) {
 	sp := spec.Spec{}
 	nm := g.name()
@@ -1055,6 +1083,9 @@ func (t *tracer) intCase(g *gen, id int) {
 		t.line("DIGEST %s %s", hx(b), hx(res.FinalName[len(res.FinalName)-1].Val))
 	}
 	t.resegment(g, "int", res.Wire, wf)
+	if id%24 == 19 || id%24 == 7 {
+		t.nilHint(g, nm)
+	}
 	// regions of the encoded Interest: name (signed part), digest component, parameters .. end
 	obs, sig, cov, _ := decode("int", enc.NewBufferReader(b))
 	if obs == "err" || obs == "panic" || sig == nil || app == nil {
